@@ -267,7 +267,7 @@ class n0xml:
                         return found
                 else:
                     # n0debug("found")
-                    if any_xpath == 2:
+                    if any_xpath == 2 and not isinstance(ordered_items, list):
                         # n0debug("ordered_items")
                         # found.extend([(passed_xpath_parts + [ordered_items[0][0]], ordered_items[0][1]['value'])])
                         found.extend([(passed_xpath_parts, ordered_items)])
